@@ -46,6 +46,9 @@ type GenOpts struct {
 	Rich      bool   // bias towards several imports / interfaces (C13)
 	SetupName string // force the setup file's name (e.g. "my.setup.go")
 	Nested    bool   // force a nested package directory
+	// Clean: only fields whose types are identical on both sides, no layout that
+	// draws a warning: a run over such a world is free of diagnostics
+	Clean bool
 	// ForceHooks: a hook from a blank-imported package is certainly used (so that
 	// goimports has to add an import on its own) and a second package of the same
 	// name exporting the same functions exists elsewhere in the module
@@ -54,7 +57,7 @@ type GenOpts struct {
 
 var RejectFamilies = []string{
 	"unknown-converter", "reverse-without-arg", "non-struct-operand", "syntax-error",
-	"unresolved-type", "no-interface", "bad-literal", "bad-style",
+	"unresolved-type", "no-interface", "bad-literal", "bad-style", "gomod-lagging",
 }
 
 type genMethod struct {
@@ -107,9 +110,11 @@ func GenWorld(r *Rng, opts GenOpts, variantCount int) *WorldSpec {
 	needTime := false
 	for _, n := range names {
 		k := r.Range(3, 8)
-		idx := make([]int, len(fieldAlphabet))
-		for i := range idx {
-			idx[i] = i
+		var idx []int
+		for i := range fieldAlphabet {
+			if !opts.Clean || (fieldAlphabet[i].modelType == fieldAlphabet[i].domainType && !strings.Contains(fieldAlphabet[i].modelType, "Address")) {
+				idx = append(idx, i)
+			}
 		}
 		Shuffle(r, idx)
 		idx = idx[:k]
@@ -154,6 +159,8 @@ func GenWorld(r *Rng, opts GenOpts, variantCount int) *WorldSpec {
 	}
 	w.Files["mod/domain/domain.go"] = render("domain", true)
 	w.Files["mod/model/model.go"] = render("model", false)
+	w.Files["mod/domain/probe.go"] = "package domain\n\ntype Probe struct {\n\tID   int64\n\tOnly string\n}\n"
+	w.Files["mod/model/probe.go"] = "package model\n\ntype Probe struct {\n\tID    int64\n\tOther string\n\tThird int\n}\n"
 
 	// --- same-last-element packages (import alias pressure)
 	twoTypes := opts.Rich && r.Chance(2, 3) || r.Chance(1, 4)
@@ -174,6 +181,10 @@ func GenWorld(r *Rng, opts GenOpts, variantCount int) *WorldSpec {
 	// import, with a notation that refers to that name (import-table pressure)
 	blankSameBase := opts.Rich && r.Chance(1, 2) || r.Chance(1, 6)
 	blankFirst := r.Bool()
+	// converter interface embedding interfaces that are declared in OTHER files of
+	// the package, each with a method that draws a warning (diagnostics whose
+	// positions lie in several files)
+	embedSiblings := (opts.Rich && r.Chance(1, 3) || r.Chance(1, 10)) && !opts.Clean
 
 	// --- converter package
 	pkgName := Pick(r, []string{"conv", "converter", "c", "mapping"})
@@ -258,6 +269,9 @@ func GenWorld(r *Rng, opts GenOpts, variantCount int) *WorldSpec {
 				gi.notations = append(gi.notations, Pick(vr, []string{":typecast", ":stringer", ":case:off", ":getter", ":match name"}))
 			}
 			nm := vr.Range(1, 4)
+			if opts.Rich && vr.Chance(1, 6) {
+				nm = vr.Range(8, 12) // many methods: ordering pressure
+			}
 			if variant == 1 && ii == 0 {
 				nm++ // variant 1: a method was added
 			}
@@ -450,6 +464,10 @@ func GenWorld(r *Rng, opts GenOpts, variantCount int) *WorldSpec {
 			intfs[0].methods[0].notations = []string{":literal " + defs[0].fields[0].name + " )("}
 		case "bad-style":
 			intfs[0].methods[0].notations = append(intfs[0].methods[0].notations, ":style sideways")
+		case "gomod-lagging":
+			// the user's go.mod lags behind the imports: a replace without the require
+			imp("", "example.com/dep/kinds")
+			intfs[0].methods = append(intfs[0].methods, genMethod{name: "KindToModel", sig: "KindToModel(*kinds.Kind) *" + modAlias + "." + defs[0].name})
 		}
 
 		var b strings.Builder
@@ -461,7 +479,11 @@ func GenWorld(r *Rng, opts GenOpts, variantCount int) *WorldSpec {
 		default:
 			b.WriteString("//go:build convergen\n\n// Package " + pkgName + " holds generated converters.\n")
 		}
-		fmt.Fprintf(&b, "package %s\n\n", pkgName)
+		if variant == 4 {
+			fmt.Fprintf(&b, "package %sv2\n\n", pkgName) // variant 4: the package was renamed
+		} else {
+			fmt.Fprintf(&b, "package %s\n\n", pkgName)
+		}
 		std := []string{}
 		for k := range usedStd {
 			std = append(std, k)
@@ -515,6 +537,9 @@ func GenWorld(r *Rng, opts GenOpts, variantCount int) *WorldSpec {
 					b.WriteString("// " + n + "\n")
 				}
 				fmt.Fprintf(&b, "type %s interface {\n", gi.name)
+				if embedSiblings && gi.name == intfs[0].name {
+					b.WriteString("\tEmbA\n\tEmbB\n")
+				}
 				for _, m := range gi.methods {
 					for _, l := range m.doc {
 						b.WriteString("\t" + l + "\n")
@@ -559,6 +584,13 @@ func GenWorld(r *Rng, opts GenOpts, variantCount int) *WorldSpec {
 			w.Files["mod/legacy/hooks/hooks.go"] = hb.String()
 		}
 	}
+	if embedSiblings && opts.Reject != "no-interface" {
+		feat["embedded-interfaces-from-sibling-files"] = true
+		for _, n := range []string{"A", "B"} {
+			w.Files[dir+"/embed_"+strings.ToLower(n)+".go"] = "//go:build convergen\n\npackage " + pkgName + "\n\nimport (\n\t\"example.com/w/domain\"\n\t\"example.com/w/model\"\n)\n\n" +
+				"// Emb" + n + " is embedded by the converter interface of the setup file.\ntype Emb" + n + " interface {\n\tProbe" + n + "ToModel(*domain.Probe) *model.Probe\n\tProbe" + n + "2(*domain.Probe) *model.Probe\n}\n"
+		}
+	}
 	if r.Chance(1, 3) {
 		feat["sibling-file"] = true
 		w.Files[dir+"/doc.go"] = "// Package " + pkgName + " documentation.\npackage " + pkgName + "\n\n// SiblingConst lives in an ordinary file of the package.\nconst SiblingConst = 42\n"
@@ -571,6 +603,11 @@ func GenWorld(r *Rng, opts GenOpts, variantCount int) *WorldSpec {
 	w.Files["elsewhere/notes.txt"] = "an unrelated working directory\n"
 	w.Files["mod/"+strings.TrimPrefix(dir, "mod/")+"/sub/keep.txt"] = "existing sub-directory inside the package\n"
 
+	if opts.Reject == "gomod-lagging" {
+		w.Files["mod/go.mod"] = "module example.com/w\n\ngo 1.19\n\nreplace example.com/dep => ../outside/dep\n"
+		w.Files["outside/dep/go.mod"] = "module example.com/dep\n\ngo 1.19\n"
+		w.Files["outside/dep/kinds/kinds.go"] = "package kinds\n\ntype Kind struct {\n\tID int64\n}\n"
+	}
 	if opts.Reject != "" {
 		w.Expect = "reject:" + opts.Reject
 	} else {
